@@ -186,6 +186,8 @@ pub struct Mix {
     pub control_twin: bool,
     /// which parts intermediaries may re-spell
     pub mask: NoiseMask,
+    /// the server clock reads the request instant at every delivery (time is not the subject)
+    pub zero_offset: bool,
     /// also deliver the message as it was issued (canonical spelling, home node, server clock at
     /// the request instant, immediate provider): the baseline that isolates the fault under study
     pub baseline: bool,
@@ -240,6 +242,7 @@ impl Mix {
             permute_pairs: true,
             control_twin: false,
             mask: NOISE_ALL,
+            zero_offset: false,
             baseline: false,
         }
     }
@@ -452,7 +455,12 @@ pub fn run_world(t: &mut Tape, mix: &Mix, judge: Judge) -> RunOut {
                 }
             }
             // ---- clocks: request instant − server now
-            let off = gen::gen_offset(t, mix.outside_window);
+            let drawn_off = gen::gen_offset(t, mix.outside_window);
+            let off = if mix.zero_offset {
+                0
+            } else {
+                drawn_off
+            };
             let now_ns = m0.auth.instant_ns - off + if c > 0 {
                 // a replay arrives later
                 t.range(0, 1200) as i128 * refm::NS
